@@ -46,37 +46,61 @@ NIDS = {"EcdsaP256": 415, "EcdsaP384": 715, "EcdsaP521": 716}
 def check(ctx):
     prog = ctx.prog
     K1 = ctx.rule("K1", "JWK member sets and constant members per key type (RFC 7517/7518 section 6, RFC 8037 section 2); thumbprint = RFC 7638 required members")
-    want = {"get_rsa_jwk": ({"kty": "RSA", "e": None, "n": None}, {"alg": "RS256", "use": "sig"}),
-            "get_ecdsa_jwk": ({"kty": "EC", "crv": None, "x": None, "y": None}, {"alg": None, "use": "sig"}),
-            "get_eddsa_jwk": ({"kty": "OKP", "crv": None, "x": None}, {"alg": "EdDSA", "use": "sig"})}
-    for fn, (req, extra) in want.items():
-        objs = ct.jwk_objects(prog, fn)
-        b = prog.must_body(KEYS + "::" + fn)
-        for thumb in (True, False):
-            got = objs.get(thumb, {})
-            exp = dict(req)
-            if not thumb:
-                exp.update(extra)
-            ctx.require(K1, set(got) == set(exp), "%s:%s" % (b.file, b.line), "%s(%s): members %s (expected %s)" % (fn, "thumbprint" if thumb else "full", sorted(got), sorted(exp)),
-                        [KEYS + "::" + fn, "members", "thumb" if thumb else "full"])
-            for k, v in exp.items():
-                if v is not None and k in got:
-                    ctx.require(K1, got[k] == v, "%s:%s" % (b.file, b.line), "%s: \"%s\" = \"%s\" (found %r)" % (fn, k, v, got[k]), [KEYS + "::" + fn, "const", k, "thumb" if thumb else "full"])
-    gj = prog.must_body(KEYS + "::get_jwk_public_key")
-    disp = {"Rsa2048": "get_rsa_jwk", "Rsa4096": "get_rsa_jwk", "EcdsaP256": "get_ecdsa_jwk", "EcdsaP384": "get_ecdsa_jwk", "EcdsaP521": "get_ecdsa_jwk",
-            "Ed25519": "get_eddsa_jwk", "Ed448": "get_eddsa_jwk"}
-    for v in ct.key_variants(prog):
-        for thumb in (True, False):
-            kp = struct_val(prog, KEYS, {"key_type": variant(KT, v)})
-            from ..absint import vbool
-            r = run(gj, {1: Val("ref", kp), 2: vbool(thumb)})
-            called = [(c.name.rsplit("::", 1)[1], args[1].deref().v if len(args) > 1 and args[1].deref().k == "bool" else None) for c, args, res in r.calls if c.name.startswith(KEYS + "::get_")]
-            ctx.require(K1, called == [(disp.get(v), thumb)], "%s:%s" % (gj.file, gj.line), "%s key, thumbprint=%s -> %s" % (v, thumb, called), [KEYS + "::get_jwk_public_key", v, str(thumb)])
-    for fn, flag in (("jwk_public_key", False), ("jwk_public_key_thumbprint", True)):
-        b = prog.must_body(KEYS + "::" + fn)
-        cs = b.calls_to(KEYS + "::get_jwk_public_key")
-        good = bool(cs) and all((op_const(c.args[1]) or {}).get("bool") is flag for c in cs)
-        ctx.require(K1, good, "%s:%s" % (b.file, b.line), "%s = get_jwk_public_key(%s)" % (fn, str(flag).lower()), [KEYS + "::" + fn, "flag"])
+    table = ct.jwk_table(prog)
+    if table is not None:
+        # evaluation-first: the objects are read off the interpreted entry points, per key type
+        ctx.ok(K1, "JWK objects evaluated from jwk_public_key / jwk_public_key_thumbprint for %d key types" % len(ct.key_variants(prog)))
+        eb = prog.must_body(KEYS + "::jwk_public_key")
+        for v in ct.key_variants(prog):
+            kty, crv, alg = ct.JWK_ORACLE.get(v, (None, None, None))
+            req = {"kty": kty}
+            if crv:
+                req["crv"] = crv
+            for m in ct.JWK_KEY_MEMBERS.get(kty, ()):
+                req[m] = None
+            for tag in ("thumb", "full"):
+                got = table.get((v, tag), {})
+                exp = dict(req)
+                if tag == "full":
+                    exp.update({"alg": alg, "use": "sig"})
+                ctx.require(K1, set(got) == set(exp), "%s:%s" % (eb.file, eb.line), "%s key (%s): members %s (expected %s)" % (v, tag, sorted(got), sorted(exp)),
+                            [KEYS + "::jwk", "members", v, tag])
+                for k, val in exp.items():
+                    if k in got:
+                        ctx.require(K1, got[k] == val, "%s:%s" % (eb.file, eb.line), "%s key (%s): \"%s\" = %s (found %r)" % (v, tag, k, val if val is not None else "<key material>", got[k]),
+                                    [KEYS + "::jwk", "const", v, k, tag])
+    else:
+        want = {"get_rsa_jwk": ({"kty": "RSA", "e": None, "n": None}, {"alg": "RS256", "use": "sig"}),
+                "get_ecdsa_jwk": ({"kty": "EC", "crv": None, "x": None, "y": None}, {"alg": None, "use": "sig"}),
+                "get_eddsa_jwk": ({"kty": "OKP", "crv": None, "x": None}, {"alg": "EdDSA", "use": "sig"})}
+        for fn, (req, extra) in want.items():
+            objs = ct.jwk_objects(prog, fn)
+            b = prog.must_body(KEYS + "::" + fn)
+            for thumb in (True, False):
+                got = objs.get(thumb, {})
+                exp = dict(req)
+                if not thumb:
+                    exp.update(extra)
+                ctx.require(K1, set(got) == set(exp), "%s:%s" % (b.file, b.line), "%s(%s): members %s (expected %s)" % (fn, "thumbprint" if thumb else "full", sorted(got), sorted(exp)),
+                            [KEYS + "::" + fn, "members", "thumb" if thumb else "full"])
+                for k, v in exp.items():
+                    if v is not None and k in got:
+                        ctx.require(K1, got[k] == v, "%s:%s" % (b.file, b.line), "%s: \"%s\" = \"%s\" (found %r)" % (fn, k, v, got[k]), [KEYS + "::" + fn, "const", k, "thumb" if thumb else "full"])
+        gj = prog.must_body(KEYS + "::get_jwk_public_key")
+        disp = {"Rsa2048": "get_rsa_jwk", "Rsa4096": "get_rsa_jwk", "EcdsaP256": "get_ecdsa_jwk", "EcdsaP384": "get_ecdsa_jwk", "EcdsaP521": "get_ecdsa_jwk",
+                "Ed25519": "get_eddsa_jwk", "Ed448": "get_eddsa_jwk"}
+        for v in ct.key_variants(prog):
+            for thumb in (True, False):
+                kp = struct_val(prog, KEYS, {"key_type": variant(KT, v)})
+                from ..absint import vbool
+                r = run(gj, {1: Val("ref", kp), 2: vbool(thumb)})
+                called = [(c.name.rsplit("::", 1)[1], args[1].deref().v if len(args) > 1 and args[1].deref().k == "bool" else None) for c, args, res in r.calls if c.name.startswith(KEYS + "::get_")]
+                ctx.require(K1, called == [(disp.get(v), thumb)], "%s:%s" % (gj.file, gj.line), "%s key, thumbprint=%s -> %s" % (v, thumb, called), [KEYS + "::get_jwk_public_key", v, str(thumb)])
+        for fn, flag in (("jwk_public_key", False), ("jwk_public_key_thumbprint", True)):
+            b = prog.must_body(KEYS + "::" + fn)
+            cs = b.calls_to(KEYS + "::get_jwk_public_key")
+            good = bool(cs) and all((op_const(c.args[1]) or {}).get("bool") is flag for c in cs)
+            ctx.require(K1, good, "%s:%s" % (b.file, b.line), "%s = get_jwk_public_key(%s)" % (fn, str(flag).lower()), [KEYS + "::" + fn, "flag"])
 
     K2 = ctx.rule("K2", "curve / width / NID tables agree between the JWK builder, the signature encoder, key generation and key-type detection")
     tabs = ct.ec_width_tables(ctx, K2)
@@ -187,6 +211,16 @@ def check(ctx):
 
 def thumbprint_members(ctx, rid):
     prog = ctx.prog
+    table = ct.jwk_table(prog)
+    if table is not None:
+        eb = prog.must_body(KEYS + "::jwk_public_key_thumbprint")
+        for v in ct.key_variants(prog):
+            kty, crv, alg = ct.JWK_ORACLE.get(v, (None, None, None))
+            members = {"kty"} | set(ct.JWK_KEY_MEMBERS.get(kty, ())) | ({"crv"} if crv else set())
+            got = table.get((v, "thumb"), {})
+            ctx.require(rid, set(got) == members, "%s:%s" % (eb.file, eb.line), "%s thumbprint members = %s (RFC 7638 required members %s)" % (v, sorted(got), sorted(members)),
+                        [KEYS + "::jwk_public_key_thumbprint", "thumbprint-members", v])
+        return
     req = {"get_rsa_jwk": {"kty", "e", "n"}, "get_ecdsa_jwk": {"kty", "crv", "x", "y"}, "get_eddsa_jwk": {"kty", "crv", "x"}}
     for fn, members in req.items():
         objs = ct.jwk_objects(prog, fn)
